@@ -20,6 +20,21 @@ CONSTANTS NFuzz,      \* configuration value-class worlds replayed (0: all posit
           NRandom,    \* plus this many random sequences ...
           RandomLen   \* ... of this length
 
+\* RECURSIVE TYPE SHAPES ("any compilable Go source"): every tool that walks go/types structurally (imports of a method
+\* scope, type-parameter lists, replace-type, name collection) meets cycles here -- TypeParam -> constraint -> TypeParam,
+\* Named -> underlying -> Named, interface -> method signature -> the interface itself.  All are legal Go and all
+\* declare a package-level interface that must be mocked:
+\*   type-parameter constraints in terms of the parameter itself (named generic constraint, inline interface literal,
+\*   a cycle across two parameters, the pointer-method idiom [T any, PT interface{ *T; M() }], a constraint embedding
+\*   comparable, [S ~[]E, E interface{ Less(E) bool }]);
+\*   recursive named types used in a signature (type R []R, struct with *N / []N fields, func type of itself, map / chan
+\*   of itself, a generic struct holding its own instance);
+\*   interfaces whose methods mention the interface itself, two mutually recursive interfaces, a generic interface
+\*   returning its own instance, an interface embedding a generic interface instantiated with itself
+RecursiveKinds == {"rec-constraint-named", "rec-constraint-inline", "rec-constraint-mutual", "rec-constraint-pointer-core",
+                   "rec-constraint-embedded-comparable", "rec-constraint-slice-elem",
+                   "rec-named-slice-in-sig", "rec-struct-in-sig", "rec-functype-in-sig", "rec-map-chan-in-sig", "rec-generic-struct-in-sig",
+                   "rec-iface-self-method", "rec-iface-mutual", "rec-generic-self-instance", "rec-iface-embeds-generic-of-self"}
 \* package-level named interfaces in files the build includes: must be mocked
 MustKinds == {"iface", "generic", "grouped", "embed-std", "embed-local", "embed-inst", "empty", "unexported",
               "anon-params", "chan-func-params", "sort-like", "unicode", "line-directive", "rare-syntax",
@@ -30,6 +45,7 @@ MustKinds == {"iface", "generic", "grouped", "embed-std", "embed-local", "embed-
               \* package clause (relative / absolute target, existing / missing target file), block form, mid-file
               "line-before-package-rel", "line-before-package-abs", "line-before-package-existing", "line-block-before-package",
               "line-mid-file", "line-goyacc-output"}
+             \cup RecursiveKinds
 \* no package-level interface of that name exists in an included file: nothing to mock, must not crash
 NoneKinds == {"struct", "functype", "local", "local-blank", "blank", "local-in-lit", "local-in-method",
               "local-in-generic-func", "local-shadows-struct", "tag-off", "ignored-file", "test-file", "init-funcs", "goos-file",
@@ -175,5 +191,6 @@ Spec == Init /\ [][Next]_w
 
 Emit == PrintT(<<"VCASE", ToJson([world |-> w, expect |-> Expectation(w),
                                   has_local |-> (\E i \in 1..Len(w.decls) : w.decls[i] \in LocalKinds),
-                                  has_alias |-> (\E i \in 1..Len(w.decls) : w.decls[i] \in AliasKinds)])>>)
+                                  has_alias |-> (\E i \in 1..Len(w.decls) : w.decls[i] \in AliasKinds),
+                                  has_recursive |-> (\E i \in 1..Len(w.decls) : w.decls[i] \in RecursiveKinds)])>>)
 =============================================================================
